@@ -4,7 +4,7 @@ CONSTANTS
   Sizes = {0, 1, 2, 3, 5, 20}
   Lookbacks = {1, 2, 3, 5, 8}
   Times = {}
-  Readers = {}
+  Readers = {1}
   MaxUpd = 100000000
   ZoneAware = FALSE
   Addrs = {}
